@@ -70,11 +70,11 @@ Excluded(t) == \E i \in 1 .. Len(t) :
                   \/ t[i] = PCT /\ \E nm \in {NmExec, NmDirscan} : NameAt(t, i + 1, nm) \/ NameAtOdd(t, i + 1, nm)
 \* index of the ")" matching an already open "(" when scanning from i; 0 if there is none.
 \* C: the argument of a call extends to the matching parenthesis; quotes and backslashes do not hide parentheses.
-RECURSIVE ParenScan(_, _, _)
-ParenScan(t, i, d) == IF i > Len(t) THEN 0
-                      ELSE IF t[i] = LPAR THEN ParenScan(t, i + 1, d + 1)
-                      ELSE IF t[i] = RPAR THEN (IF d = 1 THEN i ELSE ParenScan(t, i + 1, d - 1))
-                      ELSE ParenScan(t, i + 1, d)
+\* (Stated without recursion - TLC's recursion costs time quadratic in the depth, and arguments can be 20 000 characters
+\* long: the closing parenthesis is the first one at which the ")" seen so far outnumber the "(" by one.)
+BalAt(P, R, k) == Cardinality({j \in R : j <= k}) - Cardinality({j \in P \ R : j <= k})
+MatchIn(P, R) == LET C == {k \in R : BalAt(P, R, k) = 1} IN IF C = {} THEN 0 ELSE SetMin(C)
+ParenMatch(t, i) == MatchIn({k \in i .. Len(t) : t[k] = LPAR \/ t[k] = RPAR}, {k \in i .. Len(t) : t[k] = RPAR})
 \* first index k in i .. i+NameMax with t[k] = c, 0 if none  (C: names are at most NameMax characters)
 FindDelim(t, i, c) == LET ks == {k \in i .. Min2(Len(t), i + NameMax) : t[k] = c} IN IF ks = {} THEN 0 ELSE SetMin(ks)
 \* number of name characters starting at i (capped at NameMax)
@@ -200,17 +200,17 @@ OpSingleInDouble == /\ Scanning /\ Cur = SQ /\ Top.dq /\ GiveUp("single-quote-in
 \* S: %name(args): the argument is expanded first (innermost first), then the built-in is applied (OpReturn)
 CallName == IF Scanning /\ Cur = PCT /\ \E fn \in FnNames : NameAt(Top.txt, Top.pos + 2, Claimed[fn])
             THEN CHOOSE fn \in FnNames : NameAt(Top.txt, Top.pos + 2, Claimed[fn]) ELSE "none"
+CallPush(fn, open, close) ==                 \* open = index of "(", close = index of the matching ")" (passed in: evaluated once)
+    /\ close # 0
+    /\ stack' = [stack EXCEPT ![Depth] = [Top EXCEPT !.pos = close, !.hi = Max2(Top.hi, close)]]
+                 \o <<Frame(SubSeq(Top.txt, open + 1, close - 1), fn)>>
 OpCall(fn) ==
     /\ Scanning /\ Cur = PCT /\ ~Top.sq /\ fn = CallName /\ fn # "none"
-    /\ LET open == Top.pos + 2 + Len(Claimed[fn])               \* index of "("
-           close == ParenScan(Top.txt, open + 1, 1)
-       IN /\ close # 0
-          /\ stack' = [stack EXCEPT ![Depth] = [Top EXCEPT !.pos = close, !.hi = Max2(Top.hi, close)]]
-                      \o <<Frame(SubSeq(Top.txt, open + 1, close - 1), fn)>>
+    /\ CallPush(fn, Top.pos + 2 + Len(Claimed[fn]), ParenMatch(Top.txt, Top.pos + 3 + Len(Claimed[fn])))
     /\ Keep
 \* X: no matching parenthesis
 OpCallOpen == /\ Scanning /\ Cur = PCT /\ ~Top.sq /\ CallName # "none"
-              /\ ParenScan(Top.txt, Top.pos + 3 + Len(Claimed[CallName]), 1) = 0
+              /\ ParenMatch(Top.txt, Top.pos + 3 + Len(Claimed[CallName])) = 0
               /\ GiveUp("unterminated-call")
 \* X: a % that does not start a call of a claimed built-in (unknown name, "name )" syntax, % as last character)
 OpUnknownPercent == /\ Scanning /\ Cur = PCT /\ ~Top.sq /\ CallName = "none" /\ GiveUp("unknown-percent")
